@@ -3,6 +3,7 @@ package mon
 import (
 	"fmt"
 	"sort"
+	"strings"
 	"sync"
 )
 
@@ -38,6 +39,8 @@ type snapFile struct {
 	cnt, chn, lst uint64
 	decodable bool
 	tainted   bool // flagged by C10 label/content oracle
+	mixOlderSameTerm bool // a chunk of an older snapshot, same term, was written into this (newer) file
+	mixOther         bool // any other label mismatch between a chunk and the file it was written to
 }
 
 type fsmInst struct {
@@ -112,6 +115,8 @@ type NodeSh struct {
 
 	leaderOf map[uint64]bool
 	role     string
+
+	mixedInstall bool // the recorded mixed-snapshot defect happened on this node (narrow taint)
 }
 
 func (n *NodeSh) lastIndex() uint64 {
@@ -188,6 +193,9 @@ type Monitor struct {
 
 	// leader lease / read bookkeeping for signatures
 	Phase string
+
+	// Puppet mode: one real node, peers played by the harness, requests strictly sequential.
+	Puppet bool
 }
 
 func New() *Monitor {
@@ -261,6 +269,16 @@ func Replay(events []Event) *Monitor {
 
 func (m *Monitor) violate(ev *Event, props []string, sig, node, format string, args ...interface{}) {
 	msg := fmt.Sprintf(format, args...)
+	if node != "" {
+		if n := m.Nodes[node]; n != nil && n.mixedInstall {
+			for _, pre := range []string{"restore-content-mismatch", "probe-decision/", "replica-", "restore-unknown-bytes", "snapshot-not-newest", "discard-term-mismatch", "compact-beyond-snapshot", "discard-beyond-snapshot"} {
+				if strings.HasPrefix(sig, pre) {
+					sig += "/after-mixed-install"
+					break
+				}
+			}
+		}
+	}
 	key := sig + "|" + node + "|" + msg
 	if m.violSeen[key] {
 		return
@@ -330,6 +348,17 @@ func (m *Monitor) feed(ev *Event) {
 			if end := ev.Num + int64(ev.Cnt); end > f.size {
 				f.size = end
 			}
+			if mi := m.msgs[ev.Via]; mi != nil && mi.m.Kind == "IS" && (mi.m.LastIdx != f.idx || mi.m.LastTerm != f.term) {
+				var creatorTerm uint64
+				if cm := m.msgs[f.via]; cm != nil {
+					creatorTerm = cm.m.Term
+				}
+				if mi.m.LastIdx < f.idx && mi.m.Term == creatorTerm {
+					f.mixOlderSameTerm = true
+				} else {
+					f.mixOther = true
+				}
+			}
 		}
 	case KSnapClose:
 		m.onSnapClose(ev)
@@ -369,6 +398,21 @@ func (m *Monitor) feed(ev *Event) {
 		m.fatal = append(m.fatal, ev.Str)
 	case KPhase:
 		m.Phase = ev.Str
+	case KPuppet:
+		m.Puppet = true
+	case KWorldCommit:
+		// entries the scripted world declares committed (announced by a puppet leader)
+		for _, e := range ev.Ents {
+			if _, ok := m.K[e.Index]; !ok {
+				m.K[e.Index] = e
+				m.KSeq[e.Index] = ev.Seq
+			}
+		}
+	case KWorldSnap:
+		// a snapshot a scripted sender has: a legitimate source for installs
+		m.sources = append(m.sources, &snapFile{id: -len(m.sources) - 1, node: ev.Node, idx: ev.Idx, term: ev.Term, size: ev.Num, hash: ev.Hash, closed: true, cnt: ev.Cnt, chn: ev.Chn, decodable: true})
+	case KProbe:
+		m.onProbe(ev)
 	}
 	if m.OnEvent != nil {
 		m.OnEvent(ev)
@@ -649,6 +693,10 @@ func (m *Monitor) onLogDiscard(ev *Event) {
 	}
 	n.haveLog = true
 	n.base = Entry{Index: ev.Idx, Term: ev.Term}
+	if n.snapLabelIdx == ev.Idx && n.snapLabelTerm != ev.Term {
+		m.violate(ev, []string{"C11"}, "discard-term-mismatch", n.ID, "node %s reset its log to (index %d, term %d) but the snapshot it installed says last included term %d: last-term answers now differ from a node holding the full log", n.ID, ev.Idx, ev.Term, n.snapLabelTerm)
+		n.base.Term = n.snapLabelTerm // the shadow keeps the truth
+	}
 	n.ents = nil
 	if n.kMark > ev.Idx {
 		n.kMark = ev.Idx
@@ -701,7 +749,7 @@ func (m *Monitor) checkMajority(ev *Event, idx uint64, e Entry, how string) {
 	}
 	m.majChecked[idx] = true
 	voters := m.StaticVoters
-	if len(voters) == 0 || m.membershipOps > 0 {
+	if len(voters) == 0 || m.membershipOps > 0 || m.Puppet {
 		return
 	}
 	have := 0
@@ -873,7 +921,16 @@ func (m *Monitor) onSnapClose(ev *Event) {
 			if sameLabel {
 				why = "bytes differ from the sender's snapshot with that label"
 			}
-			m.violate(ev, []string{"C11"}, "installed-snapshot-differs", f.node, "node %s installed snapshot (index %d, term %d, %d bytes): %s", f.node, f.idx, f.term, f.size, why)
+			sig := "installed-snapshot-differs"
+			if f.mixOlderSameTerm && !f.mixOther {
+				// cause signature of the recorded defect: within one term, a request for an older snapshot is
+				// appended to the partially received file of a newer one
+				sig += "/older-snapshot-chunk-into-newer-file"
+				why += "; a chunk of an older snapshot (same term) was written into the file created for this label"
+				n.mixedInstall = true
+			}
+			f.tainted = true
+			m.violate(ev, []string{"C11"}, sig, f.node, "node %s installed snapshot (index %d, term %d, %d bytes): %s", f.node, f.idx, f.term, f.size, why)
 		} else if src.tainted {
 			f.tainted = true
 		}
@@ -941,6 +998,14 @@ func (m *Monitor) onApply(ev *Event) {
 		// C04 (i): first application anywhere
 		m.checkMajority(ev, ev.Idx, Entry{Index: ev.Idx, Term: ev.Term, Type: 1, Hash: ev.Hash}, "applied on "+ev.Node)
 	}
+	if m.Puppet {
+		// the scripted world, not the set of observed applies, defines the committed history
+		if c, h, ok := m.canonFromK(ev.Idx); ok {
+			rec = &applyRec{idx: ev.Idx, cnt: c, chn: h}
+		} else {
+			rec = &applyRec{idx: ev.Idx}
+		}
+	}
 	// C10 (2): the replica is in the canonical state for this index
 	if rec.cnt != 0 && (ev.Cnt != rec.cnt || ev.Chn != rec.chn) && !in.tainted {
 		sig := "replica-state-diverged"
@@ -979,6 +1044,12 @@ func (m *Monitor) onRestore(ev *Event) {
 	}
 	if ev.Flag && !in.tainted {
 		cc, ch, _ := m.canonAt(ev.Idx)
+		if m.Puppet {
+			var ok bool
+			if cc, ch, ok = m.canonFromK(ev.Idx); !ok {
+				cc, ch = ev.Cnt, ev.Chn
+			}
+		}
 		if ev.Cnt != cc || ev.Chn != ch {
 			m.violate(ev, []string{"C10"}, "restore-content-mismatch", ev.Node, "state machine of %s restored to label %d with %d operations, committed history up to there has %d", ev.Node, ev.Idx, ev.Cnt, cc)
 			in.tainted = true
@@ -1162,6 +1233,22 @@ func (m *Monitor) onSample(ev *Event) {
 	if s.Applied > s.Commit {
 		m.violate(ev, []string{"C11"}, "applied-beyond-commit", n.ID, "node %s applied index %d > commit index %d", n.ID, s.Applied, s.Commit)
 	}
+	if m.Puppet && ev.Via != 0 {
+		if mi := m.msgs[ev.Via]; mi != nil && mi.m.Kind == "AE" && n.lastSample != nil && n.lastSampleInc == ev.Inc {
+			before := n.lastSample.Commit
+			m.Counts["c06.commit_bound_checks"]++
+			if s.Commit > before {
+				verified := mi.m.Prev + uint64(len(mi.m.Ents))
+				if !mi.m.ROK {
+					m.violate(ev, []string{"C06"}, "commit-moved-on-reject", n.ID, "node %s rejected AppendEntries (prev %d) but its commit index moved %d -> %d", n.ID, mi.m.Prev, before, s.Commit)
+				} else if s.Commit > mi.m.Commit {
+					m.violate(ev, []string{"C06"}, "commit-beyond-leader-commit", n.ID, "node %s commit index moved %d -> %d handling a request with leaderCommit %d", n.ID, before, s.Commit, mi.m.Commit)
+				} else if s.Commit > verified {
+					m.violate(ev, []string{"C06"}, "commit-beyond-verified-prefix", n.ID, "node %s commit index moved %d -> %d handling AppendEntries(prev %d, %d entries, leaderCommit %d): entries above %d were not verified to match the sender", n.ID, before, s.Commit, mi.m.Prev, len(mi.m.Ents), mi.m.Commit, verified)
+				}
+			}
+		}
+	}
 	n.lastSample, n.lastSampleInc, n.lastSampleSeq = s, ev.Inc, ev.Seq
 	m.markCommitted(ev, n, s.Commit, "commitIndex")
 }
@@ -1239,4 +1326,31 @@ func (m *Monitor) IncTainted(node string, inc int) bool {
 		}
 	}
 	return false
+}
+
+// onProbe judges a probe request sent after a compaction / snapshot installation (C11 clause 5):
+// the node must decide as a node holding the full log would. ev.Str = kind, ev.Flag = expected decision,
+// ev.Msg carries the request and reply.
+func (m *Monitor) onProbe(ev *Event) {
+	m.Counts["c11.probes"]++
+	got := ev.Msg.ROK
+	if got != ev.Flag {
+		m.violate(ev, []string{"C11"}, "probe-decision/"+ev.Str, ev.Node, "node %s after compaction/installation answered %v to probe %s (%s); a node holding the full log (last index %d, last term %d) answers %v", ev.Node, got, ev.Str, ev.Msg.Kind, ev.Idx, ev.Term, ev.Flag)
+	}
+}
+
+// canonFromK computes the canonical state after index idx from the committed-entry map, when that map is
+// complete up to idx (puppet mode: the scripted world declares what is committed).
+func (m *Monitor) canonFromK(idx uint64) (cnt, chn uint64, ok bool) {
+	for j := uint64(1); j <= idx; j++ {
+		e, have := m.K[j]
+		if !have {
+			return 0, 0, false
+		}
+		if e.Type == 1 {
+			cnt++
+			chn = FsmStep(chn, e.Index, e.Term, e.Hash)
+		}
+	}
+	return cnt, chn, true
 }
